@@ -242,7 +242,7 @@ func scenarios() []scen {
 			t3 := grind(sp([]OP{n["F1.1"], {Tx: t1.TxID(), Vout: 1}}, []reftx.Out{bigOut(10e8, 3000), o1(10e8)}), 0x42)
 			return []*reftx.Block{blk(p, p.Tip, p.Height+1, 1, 0, t1, t2, t3)}
 		}},
-		{name: "S1-signatures-with-in-block-spend", qb: 2, tb: 3, horizon: 4000, events: []string{"b0"}, expect: "b0=ok", blocks: func(p *chainx.Prefix) []*reftx.Block {
+		{name: "S1-signatures-with-in-block-spend", qb: 2, tb: 2, horizon: 4000, events: []string{"b0"}, expect: "b0=ok", blocks: func(p *chainx.Prefix) []*reftx.Block {
 			// t1 and t2 carry real ECDSA signatures (SIGHASH_ALL commits to their outputs);
 			// t2 and t3 spend outputs created earlier in the same block while the
 			// signature checks of t1 / t2 may still be running
@@ -255,7 +255,7 @@ func scenarios() []scen {
 			t3 := sp([]OP{{Tx: t2.TxID(), Vout: 0}, {Tx: t1.TxID(), Vout: 0}}, []reftx.Out{o1(17e8)})
 			return []*reftx.Block{blk(p, p.Tip, p.Height+1, 7, 0, t1, t2, t3)}
 		}},
-		{name: "S1-bad-signature-among-valid", qb: 2, tb: 3, horizon: 4000, events: []string{"b0", "b1"}, expect: "b0=refused-connect,b1=ok", blocks: func(p *chainx.Prefix) []*reftx.Block {
+		{name: "S1-bad-signature-among-valid", qb: 2, tb: 2, horizon: 4000, events: []string{"b0", "b1"}, expect: "b0=refused-connect,b1=ok", blocks: func(p *chainx.Prefix) []*reftx.Block {
 			n := p.Named
 			mk := func(bad bool) *reftx.Block {
 				t1 := sp([]OP{n["K1"], n["K2"]}, []reftx.Out{o1(8e8), o1(12e8)})
@@ -283,7 +283,7 @@ func scenarios() []scen {
 			b2 := blk(p, b1.Hash(), p.Height+2, 11, 0)
 			return []*reftx.Block{a1, b1, b2}
 		}},
-		{name: "S1-commit-failing-script-then-early-return", qb: 2, tb: 3, horizon: 4000, events: []string{"b0", "b1"}, expect: "b0=refused-connect,b1=ok", blocks: func(p *chainx.Prefix) []*reftx.Block {
+		{name: "S1-commit-failing-script-then-early-return", qb: 2, tb: 2, horizon: 4000, events: []string{"b0", "b1"}, expect: "b0=refused-connect,b1=ok", blocks: func(p *chainx.Prefix) []*reftx.Block {
 			n := p.Named
 			t1 := sp([]OP{n["F0.0"], n["F1.0"]}, []reftx.Out{o1(20e8)})
 			t2 := sp([]OP{n["F0.1"], n["F0.3"]}, []reftx.Out{o1(20e8)})                  // second input: script fails
@@ -326,6 +326,7 @@ func scenarios() []scen {
 			c := sc
 			c.name += "/compressed-records"
 			c.compressed = true
+			c.tb = c.qb // the deep bounds are spent on the plain-record scenarios
 			scs = append(scs, c)
 		}
 	}
